@@ -61,7 +61,14 @@ struct G {
     }
     int secret_kind() { static const int k[] = {0, 0, 0, 0, 1, 2, 3, 3, 4, 5, 6, 6}; return k[rng.below(12)]; }
 
-    u64 clock_reading() {
+    u64 last_clock = 0;
+    u64 clock_reading() { u64 r = clock_reading_raw(); last_clock = r; return r; }
+    u64 clock_reading_raw() {
+        if (last_clock >= EPOCH && last_clock < EPOCH + STEP * 1024 && rng.chance(1, 6)) {
+            // related to the previous reading: just across the next month boundary (less than a month later), or a small step
+            u64 next = EPOCH + ((last_clock - EPOCH) / STEP + 1) * STEP;
+            switch (rng.below(3)) { case 0: return next + rng.below(3) - 1; case 1: return last_clock + rng.below(3600); default: return next - 1 - rng.below(1000); }
+        }
         switch (rng.below(14)) {
         case 0: return 0;
         case 1: return ~0ull;
@@ -610,6 +617,21 @@ static Plan make_C18(u64 seed, int variant) {
     g.alloc_fail_pct = g.rng.chance(1, 4) ? 10 : 0;
     reset_state(g);
     g.config((int)g.rng.below(4), (int)g.rng.below(2));
+    if (variant % 97 == 96) {
+        // injection storm: one task uses the library, another re-injects a wrapping number of times, the first one goes on
+        g.plan.ntasks = g.ntasks = 2;
+        g.inject((int)g.rng.below(3), 7); g.enable(0, 7);
+        g.create(0, 0, g.rng.below(8), g.secret_kind(), {g.clock_reading()});
+        if (g.live(0, 0)) g.free_seed(0, 0);
+        static const int counts[] = {255, 256, 257, 511, 512, 513, 768, 65536 / 64};
+        int n = counts[g.rng.below(8)], gen0 = (int)g.rng.below(3);
+        for (int i = 0; i < n; ++i) { Op& o = g.emit(OP_INJECT, 1, 0); o.a = (u64)((gen0 + i) % 3); o.b = (i == n - 1) ? 7 : g.rng.below(8); }
+        // make sure the last injection differs from the one task 0 worked under
+        g.create(0, 1, g.rng.below(8), g.secret_kind(), {g.clock_reading()});
+        if (g.live(0, 1)) { g.store(0, 1); g.keygen(0, 1, g.pick_coin(), 32); g.free_seed(0, 1); }
+        g.create(1, 0, g.rng.below(8), g.secret_kind(), {g.clock_reading()});
+        return g.plan;
+    }
     int ninj = 2 + (int)g.rng.below(5);
     int lastgen = -1;
     for (int k = 0; k < ninj; ++k) {
